@@ -198,11 +198,13 @@ static size_t pull_fn(void * st, soxr_in_t * data, size_t req)
          0 = soxr_create at 1:1; 1 ("-clr") = the same, a few frames processed, soxr_clear(), then the run;
    2 ("-lazy") = soxr_create(0, 0, ...) and soxr_set_io_ratio(s, 1, 0) (deferred initialisation, as soxr-lsr.c does). */
 static void op_api(int eng_d, int itype, int otype, int isplit, int osplit, int dith, size_t n, unsigned ch,
-    unsigned long seed, int fl, int hist)
+    unsigned long seed, int fl, int hist, long qsel)
 {
   soxr_error_t err = 0;
   soxr_io_spec_t io = soxr_io_spec((soxr_datatype_t)(itype | (isplit? SOXR_SPLIT : 0)), (soxr_datatype_t)(otype | (osplit? SOXR_SPLIT : 0)));
-  soxr_quality_spec_t q = soxr_quality_spec(eng_d? SOXR_VHQ : SOXR_HQ, 0);
+  /* "-qRRFF" in the kernel name: the engine class is asked for another way (recipe RR, quality flags FF - e.g. SOXR_QQ with
+   * SOXR_DOUBLE_PRECISION, the 32-bit recipe, SOXR_LQ): every way of requesting an engine must give that engine's exactness */
+  soxr_quality_spec_t q = qsel >= 0? soxr_quality_spec((unsigned long)qsel >> 8, (unsigned long)qsel & 0xff) : soxr_quality_spec(eng_d? SOXR_VHQ : SOXR_HQ, 0);
   soxr_runtime_spec_t rt = soxr_runtime_spec(1);
   soxr_t s;
   size_t isz = tsz(itype), osz = tsz(otype), i, idone = 0, odone = 0, total = 0, cap_out = n + 64;
@@ -372,7 +374,8 @@ int main(void)
       int it = tcode((char[]){kern[6], kern[7], kern[8], 0}), ot = tcode((char[]){kern[10], kern[11], kern[12], 0});
       if (it < 0 || ot < 0 || ch < 1 || ch > 32) {printf("ERR bad kernel\n"); continue;}
       op_api(kern[4] == 'd', it, ot, kern[14] == 's', kern[15] == 's', !!strstr(kern, "-dith"), n, ch, seed, fl,
-          strstr(kern, "-clr")? 1 : strstr(kern, "-lazy")? 2 : strstr(kern, "-pull")? 3 : 0);
+          strstr(kern, "-clr")? 1 : strstr(kern, "-lazy")? 2 : strstr(kern, "-pull")? 3 : 0,
+          strstr(kern, "-q")? strtol(strstr(kern, "-q") + 2, 0, 16) : -1);
     } else printf("ERR bad kernel\n");
     fflush(stdout);
   }
